@@ -45,6 +45,12 @@ type c18Tree struct {
 	NSs  []*c18NS
 	seq  int
 	last map[string]string // namespace path -> list item written by the previous case
+
+	// per case
+	format   string // wrap format asked for: "" (default, uuid) or "jwt"
+	home     *c18NS // the namespace the wrapping token actually lives in (JWT-format tokens: root, by design)
+	noted    map[string]bool
+	stranded string // set when cubbyhole records of the fresh token lie in another namespace's store than the token
 }
 
 func c18nsBoot(t *testing.T, tx bool) *c18Tree {
@@ -270,10 +276,16 @@ func (tr *c18Tree) run(tag string, op c18nsOp, w *c18Wrap) (*logical.Response, e
 		q.Path = "sys/wrapping/rewrap"
 	case "lookup-first":
 		q.Path = "sys/wrapping/lookup"
-	case "revoke-self":
+	case "revoke-self": // a JWT is only understood by sys/wrapping/*: elsewhere its holder presents the id it carries
 		q.Path = "auth/token/revoke-self"
+		if op.Caller == -2 {
+			q.Token = w.ID
+		}
 	case "cubbyhole-read":
 		q.Op, q.Path = logical.ReadOperation, "cubbyhole/response"
+		if op.Caller == -2 {
+			q.Token = w.ID
+		}
 	case "unwrap-third":
 		q.Path, q.Data = "sys/wrapping/unwrap", map[string]any{"token": w.Token}
 	case "rewrap":
@@ -281,9 +293,9 @@ func (tr *c18Tree) run(tag string, op c18nsOp, w *c18Wrap) (*logical.Response, e
 	case "lookup":
 		q.Path, q.Data = "sys/wrapping/lookup", map[string]any{"token": w.Token}
 	case "revoke":
-		q.Path, q.Data = "auth/token/revoke", map[string]any{"token": w.Token}
+		q.Path, q.Data = "auth/token/revoke", map[string]any{"token": w.ID}
 	case "revoke-orphan":
-		q.Path, q.Data = "auth/token/revoke-orphan", map[string]any{"token": w.Token}
+		q.Path, q.Data = "auth/token/revoke-orphan", map[string]any{"token": w.ID}
 	case "revoke-accessor":
 		q.Path, q.Data = "auth/token/revoke-accessor", map[string]any{"accessor": w.Accessor}
 	default:
@@ -336,17 +348,17 @@ func (tr *c18Tree) wrap(t *testing.T, r *kit.Result, rng *kit.Rand, ns *c18NS, k
 		hdr, prefix = "", ns.Path
 	}
 	canary := rng.Canary()
-	w := &c18Wrap{Canary: canary, Kind: kind, TTL: c18nsWrapTTL}
+	w := &c18Wrap{Canary: canary, Kind: kind, TTL: c18nsWrapTTL, Format: tr.format}
 	var resp *logical.Response
 	var err error
 	switch kind {
 	case "kv":
 		v.MustDo(vReq{Op: logical.UpdateOperation, Path: "rec/data/nsitem", Token: v.Root, NS: ns.Path, Data: map[string]any{"value": canary}})
 		w.Path = "rec/data/nsitem"
-		resp, err = v.Do(vReq{Op: logical.ReadOperation, Path: prefix + w.Path, Token: ns.User, NS: hdr, WrapTTL: w.TTL})
+		resp, err = c18DoWrap(v, vReq{Op: logical.ReadOperation, Path: prefix + w.Path, Token: ns.User, NS: hdr, WrapTTL: w.TTL}, tr.format)
 	case "login":
 		w.Path = "auth/recauth/login/u"
-		resp, err = v.Do(vReq{Op: logical.UpdateOperation, Path: prefix + w.Path, NS: hdr, Data: map[string]any{"policies": []string{"default"}, "ttl": "1h", "canary": canary, "display_name": canary}, WrapTTL: w.TTL})
+		resp, err = c18DoWrap(v, vReq{Op: logical.UpdateOperation, Path: prefix + w.Path, NS: hdr, Data: map[string]any{"policies": []string{"default"}, "ttl": "1h", "canary": canary, "display_name": canary}, WrapTTL: w.TTL}, tr.format)
 	case "list":
 		if old := tr.last[ns.Path]; old != "" {
 			v.MustDo(vReq{Op: logical.DeleteOperation, Path: old, Token: v.Root, NS: ns.Path})
@@ -355,16 +367,87 @@ func (tr *c18Tree) wrap(t *testing.T, r *kit.Result, rng *kit.Rand, ns *c18NS, k
 		v.MustDo(vReq{Op: logical.UpdateOperation, Path: item, Token: v.Root, NS: ns.Path, Data: map[string]any{"value": "x"}})
 		tr.last[ns.Path] = item
 		w.Path = "rec/data/nsdir/"
-		resp, err = v.Do(vReq{Op: logical.ListOperation, Path: prefix + w.Path, Token: ns.User, NS: hdr, WrapTTL: w.TTL})
+		resp, err = c18DoWrap(v, vReq{Op: logical.ListOperation, Path: prefix + w.Path, Token: ns.User, NS: hdr, WrapTTL: w.TTL}, tr.format)
 	}
 	if !vOK(resp, err) || resp == nil || resp.WrapInfo == nil || resp.WrapInfo.Token == "" {
-		t.Fatalf("verif: wrapped %s request in namespace %q failed: %s (%+v)", kind, ns.Path, vErrStr(resp, err), resp)
+		t.Fatalf("verif: wrapped %s request (format %q) in namespace %q failed: %s (%+v)", kind, tr.format, ns.Path, vErrStr(resp, err), resp)
 	}
 	if c18Contains(resp, canary) || (resp.Auth != nil && resp.Auth.ClientToken != "") {
 		r.Violate("C18-creator-saw-payload-in-namespace", caseID, "the response to the request that asked for wrapping contains the payload", map[string]any{"kind": kind, "namespace": ns.Path})
 	}
 	w.Token, w.Accessor = resp.WrapInfo.Token, resp.WrapInfo.Accessor
+	w.ID = c18TokenID(w.Token)
+	if (tr.format == "jwt") != IsJWT(w.Token) {
+		r.Violate("C18-wrap-format-not-as-requested", caseID, fmt.Sprintf("wrap format %q was requested in namespace %q, the token handed out is JWT: %v", tr.format, ns.Path, IsJWT(w.Token)), map[string]any{"kind": kind})
+	}
 	return w
+}
+
+// born looks at a fresh token: where it lives, which records it has, and whether its cubbyhole
+// records lie in the store of the namespace the token lives in. Only the harness's ability to
+// see all records is checked here; everything else is left to the property oracle.
+func (tr *c18Tree) born(t *testing.T, w *c18Wrap) (*c18Ident, []string) {
+	id := tr.ident(t, w.ID)
+	tr.home, tr.stranded = tr.byNS(id.NS), ""
+	if tr.home == nil {
+		t.Fatalf("verif: wrapping token lives in a namespace outside the tree: %q", id.NS.Path)
+	}
+	made := tr.keys(id)
+	kinds := c18nsKinds(made)
+	if want := []string{"accessor-index", "cubbyhole/response", "cubbyhole/wrapinfo", "lease", "token-record"}; strings.Join(kinds, ",") != strings.Join(want, ",") {
+		// the harness must be able to see every record of the token, else the residue oracle is blind
+		t.Fatalf("verif: records of a fresh wrapping token (format %q): found %v, want %v (%v)", w.Format, kinds, want, made)
+	}
+	for _, k := range made {
+		if strings.HasPrefix(c18nsKeyKind(k), "cubbyhole/") && tr.nsOfKey(k) != id.NS.Path {
+			tr.stranded = tr.nsOfKey(k)
+		}
+	}
+	return id, made
+}
+
+func (tr *c18Tree) byNS(ns *namespace.Namespace) *c18NS {
+	for _, x := range tr.NSs {
+		if x.NS.ID == ns.ID {
+			return x
+		}
+	}
+	return nil
+}
+
+// nsOfKey names the namespace of the tree whose store a physical key lies in.
+func (tr *c18Tree) nsOfKey(k string) string {
+	for _, x := range tr.NSs {
+		if p := NamespaceStoragePathPrefix(x.NS); p != "" && strings.HasPrefix(k, p) {
+			return x.Path
+		}
+	}
+	return ""
+}
+
+// note records an observation once per key.
+func (tr *c18Tree) note(r *kit.Result, key, format string, a ...any) {
+	if tr.noted == nil {
+		tr.noted = map[string]bool{}
+	}
+	if !tr.noted[key] {
+		tr.noted[key] = true
+		r.Note(format, a...)
+	}
+}
+
+// violate records an oracle firing. The property decides; only the class is narrowed: when the
+// token is gone or lost and its cubbyhole records had been written into another namespace's
+// store than the token's own (seen at its creation), that is the signature reported.
+func (tr *c18Tree) violate(r *kit.Result, class, caseID, what string, wit any) {
+	if tr.stranded != "" && tr.home != nil && (strings.HasPrefix(class, "C18-residue") || strings.HasPrefix(class, "C18-failed-") || strings.HasPrefix(class, "C18-payload-lost") || strings.HasPrefix(class, "C18-refused-first-party-unwrap-consumed-token-addressed-to-own")) {
+		what = fmt.Sprintf("[%s] %s; the token (format %q) lives in namespace %q, its cubbyhole records were written into the store of namespace %q", class, what, tr.format, tr.home.Path, tr.stranded)
+		class = "C18-wrapping-token-payload-stranded-in-request-namespace"
+		if tr.format == "jwt" {
+			class = "C18-jwt-wrapping-token-payload-stranded-in-request-namespace"
+		}
+	}
+	r.Violate(class, caseID, what, wit)
 }
 
 // ttl: wrapping tokens with a 1s TTL in every namespace; once the harness has seen the clock
@@ -378,14 +461,21 @@ func (tr *c18Tree) ttl(t *testing.T, r *kit.Result, rng *kit.Rand, caseID string
 		ns  *c18NS
 		id  *c18Ident
 		how int
+		home     *c18NS
+		stranded string
 	}
 	var items []item
 	for i, ns := range tr.NSs {
 		for how := 0; how < 3; how++ {
-			w := tr.wrapTTL(t, r, rng, ns, []string{"kv", "login", "list"}[(i+how)%3], caseID, time.Second)
-			items = append(items, item{w, ns, tr.ident(t, w.Token), how})
+			for _, format := range []string{"", "jwt"} {
+				tr.format = format
+				w := tr.wrapTTL(t, r, rng, ns, []string{"kv", "login", "list"}[(i+how)%3], caseID, time.Second)
+				id, _ := tr.born(t, w)
+				items = append(items, item{w, ns, id, how, tr.home, tr.stranded})
+			}
 		}
 	}
+	tr.format = ""
 	last := time.Now()
 	deadline := last.Add(20 * time.Second)
 	for time.Now().Before(last.Add(2500*time.Millisecond)) && time.Now().Before(deadline) {
@@ -407,9 +497,16 @@ func (tr *c18Tree) ttl(t *testing.T, r *kit.Result, rng *kit.Rand, caseID string
 		r.Eval(1)
 		r.Count("ttl_expiry_checks_in_namespaces", 1)
 		if vOK(resp, err) && c18Contains(resp, it.w.Canary) {
-			r.Violate("C18-unwrap-after-ttl-in-namespace", caseID, fmt.Sprintf("wrapped %s payload of namespace %q obtained %.1fs after creation with wrap TTL 1s", it.w.Kind, it.ns.Path, time.Since(it.w.Created).Seconds()), nil)
+			tr.violate(r, "C18-unwrap-after-ttl-in-namespace", caseID, fmt.Sprintf("wrapped %s payload of namespace %q obtained %.1fs after creation with wrap TTL 1s", it.w.Kind, it.ns.Path, time.Since(it.w.Created).Seconds()), nil)
 		}
 	}
+	// ... and the expired tokens and their payloads are removed from every namespace's store
+	for _, it := range items {
+		tr.format, tr.home, tr.stranded = it.w.Format, it.home, it.stranded
+		tr.judgeGone(r, caseID, it.id, "C18-residue-after-ttl-in-namespace", fmt.Sprintf("the wrap TTL (1s) of a %s token (format %q) requested in namespace %q elapsed %.1fs ago", it.w.Kind, it.w.Format, it.ns.Path, time.Since(it.w.Created).Seconds()), map[string]any{"kind": it.w.Kind, "format": it.w.Format, "requested_in_namespace": it.ns.Path})
+		r.Count("residue_checks_after_ttl_in_namespaces", 1)
+	}
+	tr.format, tr.stranded = "", ""
 }
 
 func (tr *c18Tree) wrapTTL(t *testing.T, r *kit.Result, rng *kit.Rand, ns *c18NS, kind string, caseID string, ttl time.Duration) *c18Wrap {
@@ -447,7 +544,7 @@ func (tr *c18Tree) outcome(op c18nsOp, w *c18Wrap, wns *c18NS, resp *logical.Res
 	if op.Caller == -2 {
 		o.Caller, o.Rel = "(the wrapping token)", "first-party"
 	} else {
-		o.Rel = c18nsRel(cns, wns.Path)
+		o.Rel = c18nsRel(cns, tr.home.Path)
 	}
 	ok := vOK(resp, err)
 	o.Revealed = ok && c18Contains(resp, w.Canary)
@@ -468,15 +565,16 @@ func c18nsIsUnwrap(kind string) bool {
 // elsewhere than the wrapping token, or (first party) the request was addressed elsewhere.
 func (tr *c18Tree) cross(op c18nsOp, w *c18Wrap, wns *c18NS) bool {
 	if op.Caller == -2 {
-		return op.Hdr+op.Prefix != wns.Path
+		return op.Hdr+op.Prefix != tr.home.Path
 	}
 	_, cns := tr.callerToken(op, w)
-	return cns != wns.Path
+	return cns != tr.home.Path
 }
 
 // finish consumes a token the oracle expects to be intact: the same-namespace third party
 // (the namespace's own user, namespace by header) unwraps it; returns whether the payload came.
 func (tr *c18Tree) finish(w *c18Wrap, wns *c18NS, token string) bool {
+	wns = tr.home
 	resp, err := tr.v.Do(vReq{Op: logical.UpdateOperation, Path: "sys/wrapping/unwrap", Token: wns.User, NS: wns.Path, Data: map[string]any{"token": token}})
 	return vOK(resp, err) && c18Contains(resp, w.Canary)
 }
@@ -510,16 +608,12 @@ func (tr *c18Tree) oneOp(t *testing.T, r *kit.Result, rng *kit.Rand, caseID stri
 		before[k] = true
 	}
 	w := tr.wrap(t, r, rng, wns, wkind, rng.Chance(1, 3), caseID)
-	id := tr.ident(t, w.Token)
-	if id.NS.ID != wns.NS.ID {
-		r.Violate("C18-wrapping-token-in-other-namespace", caseID, fmt.Sprintf("a response wrapped by a request in namespace %q produced a wrapping token of namespace %q", wns.Path, id.NS.Path), nil)
-	}
-	made := tr.keys(id)
+	id, made := tr.born(t, w)
 	kinds := c18nsKinds(made)
-	if want := []string{"accessor-index", "cubbyhole/response", "cubbyhole/wrapinfo", "lease", "token-record"}; strings.Join(kinds, ",") != strings.Join(want, ",") {
-		// the harness must be able to see every record of the token, else the residue oracle is blind
-		t.Fatalf("verif: records of a fresh wrapping token in %q: found %v, want %v (%v)", wns.Path, kinds, want, made)
+	if id.NS.ID != wns.NS.ID && tr.format != "jwt" { // JWT-format tokens are kept in the root namespace by design
+		tr.violate(r, "C18-wrapping-token-in-other-namespace", caseID, fmt.Sprintf("a response wrapped by a request in namespace %q produced a wrapping token of namespace %q", wns.Path, id.NS.Path), nil)
 	}
+	r.Count(fmt.Sprintf("tokens_made:format=%s:requested_in_root=%v:live_in_root=%v", map[string]string{"": "uuid", "jwt": "jwt"}[tr.format], wns.Path == "", id.NS.Path == ""), 1)
 	for _, k := range made {
 		if before[k] {
 			t.Fatalf("verif: key %s predates the wrapping token it is attributed to", k)
@@ -538,7 +632,7 @@ func (tr *c18Tree) oneOp(t *testing.T, r *kit.Result, rng *kit.Rand, caseID stri
 		outs = append(outs, po)
 		tr.judgeLookup(r, caseID, w, wns, po, resp)
 		if vOK(resp, err) && c18Contains(resp, w.Canary) {
-			r.Violate("C18-payload-in-answer-to-non-unwrap-request", caseID, "a lookup answered with the payload", po)
+			tr.violate(r, "C18-payload-in-answer-to-non-unwrap-request", caseID, "a lookup answered with the payload", po)
 		}
 	}
 
@@ -547,12 +641,12 @@ func (tr *c18Tree) oneOp(t *testing.T, r *kit.Result, rng *kit.Rand, caseID stri
 	outs = append(outs, o)
 	r.Eval(1)
 	r.Count(fmt.Sprintf("outcome|%s|%s|%s", op.Kind, o.Rel, c18nsResultClass(o)), 1)
-	wit := map[string]any{"token_namespace": wns.Path, "wrapped": wkind, "requests": outs, "records_of_fresh_token": kinds}
+	wit := map[string]any{"requested_in_namespace": wns.Path, "token_namespace": tr.home.Path, "format": tr.format, "wrapped": wkind, "requests": outs, "records_of_fresh_token": kinds}
 	reveals := 0
 	if o.Revealed {
 		reveals++
 		if !c18nsIsUnwrap(op.Kind) {
-			r.Violate("C18-payload-in-answer-to-non-unwrap-request", caseID, fmt.Sprintf("the answer to %s contains the wrapped payload", op.Kind), wit)
+			tr.violate(r, "C18-payload-in-answer-to-non-unwrap-request", caseID, fmt.Sprintf("the answer to %s contains the wrapped payload", op.Kind), wit)
 		}
 	}
 	tr.judgeLookup(r, caseID, w, wns, o, resp)
@@ -568,17 +662,20 @@ func (tr *c18Tree) oneOp(t *testing.T, r *kit.Result, rng *kit.Rand, caseID stri
 		if op.Kind == "unwrap-first" && cross {
 			r.Count("first_party_unwraps_addressed_to_other_namespace_succeeded", 1)
 		}
+		if tr.format == "jwt" {
+			r.Count("jwt_unwraps_succeeded:"+cls, 1)
+		}
 		tr.judgeGone(r, caseID, id, "C18-residue-after-"+scope+"-"+cls, "the wrapping token was unwrapped ("+op.Kind+")", wit)
 		reveals += tr.retries(r, caseID, op, w, wns, wit)
 	case o.NewToken != "":
 		r.Count("rewraps_succeeded:"+scope, 1)
 		if rp := resp.WrapInfo.CreationPath; !tr.pathOK(w, wns, rp) {
-			r.Violate("C18-creation-path-across-namespaces", caseID, fmt.Sprintf("rewrap reports creation path %q, the token was created by %q in %q", rp, w.Path, wns.Path), wit)
+			tr.violate(r, "C18-creation-path-across-namespaces", caseID, fmt.Sprintf("rewrap reports creation path %q, the token was created by %q in %q", rp, w.Path, wns.Path), wit)
 		}
 		tr.judgeGone(r, caseID, id, "C18-residue-after-"+scope+"-rewrap", "the wrapping token was rewrapped", wit)
 		reveals += tr.retries(r, caseID, op, w, wns, wit)
 		// the successor: reports the creation path, unwraps once, leaves nothing
-		nid := tr.ident(t, o.NewToken)
+		nid := tr.ident(t, c18TokenID(o.NewToken))
 		wit["successor_namespace"] = nid.NS.Path
 		switch _, cns := tr.callerToken(op, w); {
 		case nid.NS.Path == wns.Path:
@@ -591,12 +688,12 @@ func (tr *c18Tree) oneOp(t *testing.T, r *kit.Result, rng *kit.Rand, caseID stri
 		lr, lerr := v.Do(vReq{Op: logical.UpdateOperation, Path: "sys/wrapping/lookup", Token: o.NewToken})
 		if vOK(lr, lerr) && lr != nil && lr.Data != nil {
 			if cp, _ := lr.Data["creation_path"].(string); !tr.pathOK(w, wns, cp) {
-				r.Violate("C18-creation-path-across-namespaces", caseID, fmt.Sprintf("lookup on the rewrapped token reports creation path %q, original %q in %q", cp, w.Path, wns.Path), wit)
+				tr.violate(r, "C18-creation-path-across-namespaces", caseID, fmt.Sprintf("lookup on the rewrapped token reports creation path %q, original %q in %q", cp, w.Path, wns.Path), wit)
 			}
 		}
 		reveals += tr.unwrapSuccessor(r, rng, w, nid, o.NewToken)
 		if reveals == 0 {
-			r.Violate("C18-payload-lost-after-"+scope+"-rewrap", caseID, "the rewrap succeeded but its token does not unwrap to the payload", wit)
+			tr.violate(r, "C18-payload-lost-after-"+scope+"-rewrap", caseID, "the rewrap succeeded but its token does not unwrap to the payload", wit)
 		}
 		tr.judgeGone(r, caseID, nid, "C18-residue-of-rewrapped-token-after-unwrap", "the rewrapped token was unwrapped", wit)
 	default:
@@ -613,28 +710,44 @@ func (tr *c18Tree) oneOp(t *testing.T, r *kit.Result, rng *kit.Rand, caseID stri
 		ok := vOK(resp, err)
 		switch {
 		case usable && !intact:
-			r.Violate("C18-usable-token-with-missing-records-after-"+scope+"-"+cls, caseID, "the token still unwrapped although some of its records were gone", wit)
+			tr.violate(r, "C18-usable-token-with-missing-records-after-"+scope+"-"+cls, caseID, "the token still unwrapped although some of its records were gone", wit)
 		case usable:
 			r.Count("token_left_intact:"+cls, 1)
 			if cls == "revoke" && ok {
 				r.Count("revoke_answered_ok_without_effect:"+scope, 1)
 				r.Nontrivial("revoke-noop|" + op.Kind + "|" + o.Rel + "|" + op.Addr)
-				r.Note("%s of a wrapping token of %q by a caller of %q (%s), addressing %s: answered ok, token untouched and still usable", op.Kind, wns.Path, o.Caller, o.Rel, op.Addr)
+				tr.note(r, "revoke-noop|"+op.Kind+"|"+o.Rel+"|"+tr.format, "%s of a wrapping token (format %q) of %q by a caller of %q (%s), addressing %s: answered ok, token untouched and still usable", op.Kind, tr.format, tr.home.Path, o.Caller, o.Rel, op.Addr)
 			}
 			if !ok {
 				r.Count("refusals_that_left_the_token_usable", 1)
 			}
 			tr.judgeGone(r, caseID, id, "C18-residue-after-same-namespace-unwrap", "the token was unwrapped by its namespace's own user after "+op.Kind, wit)
+		case op.Kind == "unwrap-first" && !ok && !strings.Contains(o.Result, "permission denied"):
+			// the holder was not turned away, the unwrap endpoint failed - and the payload is gone: of
+			// the unwrap attempts made (one) none obtained it
+			own := map[bool]string{true: "other", false: "own"}[cross]
+			tr.violate(r, "C18-failed-first-party-unwrap-consumed-token-addressed-to-"+own+"-namespace", caseID, fmt.Sprintf("sys/wrapping/unwrap with the wrapping token (format %q, lives in namespace %q, requested in %q) as client token, header %q path prefix %q, answered %q; afterwards the token no longer unwraps: nobody obtained the payload", tr.format, tr.home.Path, wns.Path, op.Hdr, op.Prefix, strings.Join(strings.Fields(o.Result), " ")), wit)
+			tr.judgeGone(r, caseID, id, "C18-residue-after-failed-first-party-unwrap-addressed-to-"+own+"-namespace", "a failed first-party unwrap used the token up", wit)
 		case op.Caller == -2 && !ok:
-			// a refused first-party request still counts as the single use (by design): lost, not revealed
+			// a refused first-party request counts as the single use (by design, the use-count clause
+			// of C19): the payload is lost, but revealed to nobody, nothing of the token is left, and
+			// later attempts get nothing
 			r.Count("first_party_refusals_that_consumed_the_token", 1)
 			r.Count("first_party_refusals_that_consumed_the_token:"+op.Kind, 1)
+			if op.Kind == "unwrap-first" && tr.format == "jwt" && op.Hdr+op.Prefix != "" {
+				r.Count("jwt_first_party_unwrap_addressed_to_child_namespace_refused_and_consumed", 1)
+				tr.note(r, "jwt-first-party-"+op.Addr, "observation outside the property: POST sys/wrapping/unwrap with a JWT-format wrapping token as client token, addressed to a non-root namespace (header %q, path prefix %q; token requested in %q, lives in root by design) is answered 'permission denied', spends the single use and the token is torn down: the holder cannot unwrap it in the namespace it asked in, while the same request without a namespace and a third-party unwrap from that namespace succeed. Mechanism: handleCancelableRequest switches to the client token's namespace only when PopulateTokenEntry resolved an entry, which it cannot for a JWT; fetchACLTokenEntryAndEntity then builds the ACL with the request namespace's context but the policy names of the token's (root) namespace, whose response-wrapping policy does not match <ns>/sys/wrapping/unwrap; UseToken has run before the denial", op.Hdr, op.Prefix, wns.Path)
+			}
+			reveals += tr.retries(r, caseID, op, w, wns, wit)
+			if kit.OnlyCase() != "" {
+				t.Logf("first-party refusal: %+v", o)
+			}
 			tr.judgeGone(r, caseID, id, "C18-residue-after-refused-first-party-request-addressed-to-"+map[bool]string{true: "other", false: "own"}[cross]+"-namespace", "a refused first-party request ("+op.Kind+") used the token up", wit)
 		case cls == "revoke" && ok:
 			r.Count("revocations_succeeded:"+scope, 1)
 			tr.judgeGone(r, caseID, id, "C18-residue-after-"+scope+"-revoke", "the wrapping token was revoked ("+op.Kind+")", wit)
 		case cls == "lookup" && o.Looked:
-			r.Violate("C18-lookup-consumed-token-"+scope, caseID, "after a successful lookup the token no longer unwraps", wit)
+			tr.violate(r, "C18-lookup-consumed-token-"+scope, caseID, "after a successful lookup the token no longer unwraps", wit)
 		default:
 			// a third party was refused (or got an empty answer) and the payload is lost
 			class := "C18-failed-" + scope + "-" + cls + "-consumed-token"
@@ -646,16 +759,22 @@ func (tr *c18Tree) oneOp(t *testing.T, r *kit.Result, rng *kit.Rand, caseID stri
 					wit["left_in_storage"] = left2
 				}
 			}
-			r.Violate(class, caseID, what, wit)
+			tr.violate(r, class, caseID, what, wit)
 		}
 	}
 	if reveals > 1 {
-		r.Violate("C18-payload-revealed-twice-across-namespaces", caseID, fmt.Sprintf("the payload was obtained %d times", reveals), wit)
+		tr.violate(r, "C18-payload-revealed-twice-across-namespaces", caseID, fmt.Sprintf("the payload was obtained %d times", reveals), wit)
 	}
 	if reveals == 1 {
 		r.Count("exactly_one_reveal", 1)
 	}
-	r.Nontrivial(fmt.Sprintf("%s|%s|%s|%s|%s|%s", wns.Path, wkind, op.Kind, o.Rel, op.Addr, c18nsResultClass(o)))
+	r.Nontrivial(fmt.Sprintf("%s|%s|%s|%s|%s|%s|%s", wns.Path, tr.format, wkind, op.Kind, o.Rel, op.Addr, c18nsResultClass(o)))
+	if tr.format == "jwt" && wns.Path != "" {
+		r.Count("jwt_tokens_requested_in_a_child_namespace:"+c18nsResultClass(o), 1)
+		if reveals == 1 {
+			r.Count("jwt_tokens_requested_in_a_child_namespace:exactly_one_reveal", 1)
+		}
+	}
 	if cross && o.Revealed {
 		r.Sample(wit)
 	}
@@ -681,7 +800,7 @@ func (tr *c18Tree) judgeLookup(r *kit.Result, caseID string, w *c18Wrap, wns *c1
 	}
 	r.Count("lookups_ok:"+o.Rel, 1)
 	if cp, _ := resp.Data["creation_path"].(string); !tr.pathOK(w, wns, cp) {
-		r.Violate("C18-creation-path-across-namespaces", caseID, fmt.Sprintf("lookup by a caller of namespace %q reports creation path %q, the token was created by %q in %q", o.Caller, cp, w.Path, wns.Path), o)
+		tr.violate(r, "C18-creation-path-across-namespaces", caseID, fmt.Sprintf("lookup by a caller of namespace %q reports creation path %q, the token was created by %q in %q", o.Caller, cp, w.Path, wns.Path), o)
 	}
 }
 
@@ -703,7 +822,7 @@ func (tr *c18Tree) judgeGone(r *kit.Result, caseID string, id *c18Ident, class, 
 	for k, x := range wit {
 		w2[k] = x
 	}
-	r.Violate(class, caseID, fmt.Sprintf("%s, but in the store remain: %v (lease record: %s)", when, c18nsKinds(left), lease), w2)
+	tr.violate(r, class, caseID, fmt.Sprintf("%s, but in the store remain: %v (lease record: %s)", when, c18nsKinds(left), lease), w2)
 	return false
 }
 
@@ -738,6 +857,7 @@ func (tr *c18Tree) unwrapSuccessor(r *kit.Result, rng *kit.Rand, w *c18Wrap, nid
 // old token again - not the same caller, not the token's own namespace, not the token itself.
 func (tr *c18Tree) retries(r *kit.Result, caseID string, op c18nsOp, w *c18Wrap, wns *c18NS, wit map[string]any) int {
 	n := 0
+	wns = tr.home
 	again := []c18nsOp{op,
 		{Kind: "unwrap-third", Caller: tr.idx(wns), Hdr: wns.Path, Addr: "header=token-ns"},
 		{Kind: "unwrap-third", Caller: -1, Addr: "none"},
@@ -748,7 +868,7 @@ func (tr *c18Tree) retries(r *kit.Result, caseID string, op c18nsOp, w *c18Wrap,
 		r.Count("repeat_attempts", 1)
 		if vOK(resp, err) && c18Contains(resp, w.Canary) {
 			n++
-			r.Violate("C18-second-reveal-across-namespaces", caseID, fmt.Sprintf("after the token was consumed, %s (addressing %s) obtained the payload again", a.Kind, a.Addr), wit)
+			tr.violate(r, "C18-second-reveal-across-namespaces", caseID, fmt.Sprintf("after the token was consumed, %s (addressing %s) obtained the payload again", a.Kind, a.Addr), wit)
 		}
 	}
 	return n
@@ -806,22 +926,31 @@ func TestVerif_C18_Namespaces(t *testing.T) {
 		n := 0
 		for wi, wns := range tr.NSs {
 			for oi, op := range tr.ops(wns) {
-				for ki, wkind := range kindsAll {
-					n++
-					if kit.Tier() == "quick" && (oi+wi+int(seed)+int(b2u18(tx)))%3 != ki {
-						continue
-					}
-					if n%nshards != shard {
-						continue
-					}
-					caseID := fmt.Sprintf("ns:%v:%d:%s:%s:%d:%s|%s", tx, wi, wkind, op.Kind, op.Caller, op.Hdr, op.Prefix)
-					if !kit.WantCase(caseID) {
-						continue
-					}
-					rng := kit.NewRand(seed, uint64(n)*2+b2u18(tx)+77_000_000)
-					tr.oneOp(t, r, rng, caseID, wns, wkind, op)
-					if r.NViolations() > 3000 {
-						return
+				for fi, format := range []string{"", "jwt"} {
+					for ki, wkind := range kindsAll {
+						n++
+						// quick: one kind per (namespace, operation, caller, addressing, format), chosen by the seed
+						if kit.Tier() == "quick" && (oi+wi+fi+int(seed)+int(b2u18(tx)))%3 != ki {
+							continue
+						}
+						// quick: the JWT format for every second combination (all of them over two seeds)
+						if kit.Tier() == "quick" && format == "jwt" && (oi+wi+int(seed))%2 != 0 {
+							continue
+						}
+						if n%nshards != shard {
+							continue
+						}
+						caseID := fmt.Sprintf("ns:%v:%d:%s%s:%s:%d:%s|%s", tx, wi, wkind, map[string]string{"": "", "jwt": "+jwt"}[format], op.Kind, op.Caller, op.Hdr, op.Prefix)
+						if !kit.WantCase(caseID) {
+							continue
+						}
+						rng := kit.NewRand(seed, uint64(n)*2+b2u18(tx)+77_000_000)
+						tr.format = format
+						tr.oneOp(t, r, rng, caseID, wns, wkind, op)
+						tr.format = ""
+						if r.NViolations() > 3000 {
+							return
+						}
 					}
 				}
 			}
@@ -830,6 +959,10 @@ func TestVerif_C18_Namespaces(t *testing.T) {
 		tr.v.Close()
 	}
 	r.Require("ttl_expiry_checks_in_namespaces", 8)
+	r.Require("jwt_tokens_requested_in_a_child_namespace:exactly_one_reveal", 200)
+	r.Require("jwt_tokens_requested_in_a_child_namespace:payload", 60)
+	r.Require("jwt_unwraps_succeeded:first-party-unwrap", 10)
+	r.Require("jwt_unwraps_succeeded:unwrap", 60)
 	r.Require("rewraps_succeeded:cross-namespace", 40)
 	r.Require("revocations_succeeded:cross-namespace", 40)
 	r.Require("first_party_refusals_that_consumed_the_token", 40)
@@ -848,8 +981,7 @@ func TestVerif_C18_Namespaces(t *testing.T) {
 func (tr *c18Tree) conc(t *testing.T, r *kit.Result, rng *kit.Rand, caseID string, wns *c18NS, wkind string, ops []c18nsOp, pol kit.Policy) (kit.Schedule, bool) {
 	v := tr.v
 	w := tr.wrap(t, r, rng, wns, wkind, false, caseID)
-	id := tr.ident(t, w.Token)
-	made := tr.keys(id)
+	id, made := tr.born(t, w)
 	resps := make([]*logical.Response, len(ops))
 	errs := make([]error, len(ops))
 	var mu sync.Mutex
@@ -890,7 +1022,7 @@ func (tr *c18Tree) conc(t *testing.T, r *kit.Result, rng *kit.Rand, caseID strin
 		if o.Revealed {
 			reveals++
 			if !c18nsIsUnwrap(op.Kind) {
-				r.Violate("C18-payload-in-answer-to-non-unwrap-request", caseID, fmt.Sprintf("the answer to %s contains the wrapped payload", op.Kind), o)
+				tr.violate(r, "C18-payload-in-answer-to-non-unwrap-request", caseID, fmt.Sprintf("the answer to %s contains the wrapped payload", op.Kind), o)
 			}
 			winner = c18nsOpClass(op.Kind)
 			if tr.cross(op, w, wns) {
@@ -908,10 +1040,10 @@ func (tr *c18Tree) conc(t *testing.T, r *kit.Result, rng *kit.Rand, caseID strin
 			consumers++
 		}
 	}
-	wit := map[string]any{"token_namespace": wns.Path, "wrapped": wkind, "requests": outs, "schedule": c18Trunc(sched.String(), 3000)}
+	wit := map[string]any{"requested_in_namespace": wns.Path, "token_namespace": tr.home.Path, "format": tr.format, "wrapped": wkind, "requests": outs, "schedule": c18Trunc(sched.String(), 3000)}
 	var nids []*c18Ident
 	for _, nt := range successors {
-		nid := tr.ident(t, nt)
+		nid := tr.ident(t, c18TokenID(nt))
 		nids = append(nids, nid)
 		reveals += tr.unwrapSuccessor(r, rng, w, nid, nt)
 	}
@@ -924,12 +1056,21 @@ func (tr *c18Tree) conc(t *testing.T, r *kit.Result, rng *kit.Rand, caseID strin
 			consumed = true
 			r.Count("token_left_intact_by_all_consumers", 1)
 			if len(left) != len(made) {
-				r.Violate("C18-usable-token-with-missing-records-after-concurrent-requests", caseID, "the token still unwrapped although some of its records were gone", wit)
+				tr.violate(r, "C18-usable-token-with-missing-records-after-concurrent-requests", caseID, "the token still unwrapped although some of its records were gone", wit)
 			}
 		} else {
 			wit["records_after_the_requests"] = c18nsKinds(left)
 			class, what := "C18-payload-lost-to-concurrent-consumers-across-namespaces", "none of the concurrent requests obtained the payload or a successor token, and the token no longer unwraps"
 			for i, op := range ops {
+				if op.Caller == -2 && strings.Contains(outs[i].Result, "permission denied") {
+					// a refused first-party request counts as the single use (by design): the payload
+					// is lost to everybody; nothing may be left and nobody may get it later
+					class, winner = "", "refused-first-party-request"
+					r.Count("token_used_up_by_a_refused_first_party_request", 1)
+					if tr.format == "jwt" && op.Hdr+op.Prefix != "" {
+						r.Count("jwt_first_party_unwrap_addressed_to_child_namespace_refused_and_consumed", 1)
+					}
+				}
 				// the signature of the sequential finding: a third-party rewrap from another namespace
 				// that got as far as reading the cubbyhole (it had counted the use) and found nothing
 				if op.Kind == "rewrap" && tr.cross(op, w, wns) && strings.Contains(outs[i].Result, "no information found") && len(left) == len(made) {
@@ -937,11 +1078,15 @@ func (tr *c18Tree) conc(t *testing.T, r *kit.Result, rng *kit.Rand, caseID strin
 					what = fmt.Sprintf("rewrap by a caller of namespace %q (%s) answered %q while racing with %d other request(s); nobody obtained the payload, the token no longer unwraps, and in the store remain: %v", outs[i].Caller, outs[i].Rel, outs[i].Result, len(ops)-1, c18nsKinds(left))
 				}
 			}
-			r.Violate(class, caseID, what, wit)
+			if class != "" {
+				tr.violate(r, class, caseID, what, wit)
+			} else {
+				consumed = true
+			}
 		}
 	}
 	if reveals > 1 {
-		r.Violate("C18-payload-revealed-twice-across-namespaces", caseID, fmt.Sprintf("the wrapped payload was obtained %d times by concurrent consumers", reveals), wit)
+		tr.violate(r, "C18-payload-revealed-twice-across-namespaces", caseID, fmt.Sprintf("the wrapped payload was obtained %d times by concurrent consumers", reveals), wit)
 	}
 	if reveals == 1 {
 		r.Count("exactly_one_reveal", 1)
@@ -958,7 +1103,7 @@ func (tr *c18Tree) conc(t *testing.T, r *kit.Result, rng *kit.Rand, caseID strin
 		}
 		late, lerr := v.Do(vReq{Op: logical.UpdateOperation, Path: "sys/wrapping/unwrap", Token: v.Root, Data: map[string]any{"token": w.Token}})
 		if vOK(late, lerr) && c18Contains(late, w.Canary) {
-			r.Violate("C18-second-reveal-across-namespaces", caseID, "a late cross-namespace unwrap after the concurrent phase still obtained the payload", wit)
+			tr.violate(r, "C18-second-reveal-across-namespaces", caseID, "a late cross-namespace unwrap after the concurrent phase still obtained the payload", wit)
 		}
 	}
 	if sched.Overlap() {
@@ -1021,7 +1166,11 @@ func TestVerif_C18_NamespaceSchedules(t *testing.T) {
 				ops = []c18nsOp{third("unwrap-third", -1, ""), third("rewrap", tr.idx(wns), wns.Path), third("lookup", 3, "sib/")}
 			}
 			wkind := []string{"kv", "login", "list"}[(c+int(seed))%3]
-			ex := &kit.Explorer{MaxPreempt: 2, MaxRuns: kit.N(18, 120)}
+			tr.format = []string{"", "jwt"}[(c/2+int(b2u18(tx)))%2]
+			if tr.format == "jwt" {
+				r.Count("scenarios_with_jwt_format", 1)
+			}
+			ex := &kit.Explorer{MaxPreempt: 2, MaxRuns: kit.N(15, 120)}
 			idx := 0
 			stop := false
 			prefix := fmt.Sprintf("nssch:%v:%d:%d:ex:", tx, shard, c)
@@ -1049,7 +1198,7 @@ func TestVerif_C18_NamespaceSchedules(t *testing.T) {
 			if stop {
 				return
 			}
-			for q := 0; q < kit.N(6, 40); q++ {
+			for q := 0; q < kit.N(5, 40); q++ {
 				caseID := fmt.Sprintf("nssch:%v:%d:%d:pct:%d", tx, shard, c, q)
 				if !kit.WantCase(caseID) {
 					continue
